@@ -10,8 +10,29 @@ SPEC = r"""
 pub uninterp spec fn origin(v: &Value) -> Node;               // the source node a parsed value came from
 #[verifier::external_body] pub fn parse_value_from(n: Node) -> (r: Result<Value, Vec<VErr>>) ensures r is Ok ==> origin(&r->Ok_0) == n, r is Err ==> r->Err_0@.len() > 0 { unimplemented!() }
 #[verifier::external_body] pub struct MapType { x: usize }
-#[verifier::external_body] pub fn check_key(key: &Value, m: &MapType, input: &Node) -> (ok: bool) { unimplemented!() }
-#[verifier::external_body] pub fn check_value(value: &Value, m: &MapType, input: &Node) -> (ok: bool) { unimplemented!() }
+// ---- typing of the pairs (C03 / C02) ----
+pub uninterp spec fn map_key_type(m: &MapType) -> TypeLayout;
+pub uninterp spec fn map_value_type(m: &MapType) -> TypeLayout;
+impl MapType {
+    #[verifier::external_body] pub fn key_type(&self) -> (r: &TypeLayout) ensures *r == map_key_type(self) { unimplemented!() }
+    #[verifier::external_body] pub fn value_type(&self) -> (r: &TypeLayout) ensures *r == map_value_type(self) { unimplemented!() }
+}
+pub uninterp spec fn vtype(v: &Value, input: &Node) -> TypeLayout;          // Value::for_type in the class context of the literal
+#[verifier::external_body] pub fn value_type_of(v: &Value, input: &Node) -> (r: TypeLayout) ensures r == vtype(v, input) { unimplemented!() }
+// TypeLayout::eq_complex in that class context: abstract, NOT known to be symmetric
+pub uninterp spec fn fits(a: TypeLayout, b: TypeLayout, input: &Node) -> bool;
+#[verifier::external_body] pub fn eq_complex_in(a: &TypeLayout, b: &TypeLayout, input: &Node) -> (r: bool) ensures r == fits(*a, *b, input) { unimplemented!() }
+pub uninterp spec fn may_be_nil(t: TypeLayout) -> bool;                      // TypeLayout::is_optional().0
+impl TypeLayout { #[verifier::external_body] pub fn is_optional(&self) -> (r: (bool, Option<&TypeLayout>)) ensures r.0 == may_be_nil(*self) { unimplemented!() } }
+// a pair the literal may keep: key and value pass the compatibility test against the map's declared types, and -- from the property (C03:
+// an ill-typed program is rejected; a value that may be nil is ill-typed where the type does not admit nil) -- neither is nil-able unless
+// the declared type is
+pub open spec fn pair_typed(p: (Value, Value), m: &MapType, input: &Node) -> bool {
+    &&& (fits(vtype(&p.0, input), map_key_type(m), input) || fits(map_key_type(m), vtype(&p.0, input), input))
+    &&& (fits(vtype(&p.1, input), map_value_type(m), input) || fits(map_value_type(m), vtype(&p.1, input), input))
+    &&& !(may_be_nil(vtype(&p.0, input)) && !may_be_nil(map_key_type(m)))
+    &&& !(may_be_nil(vtype(&p.1, input)) && !may_be_nil(map_value_type(m)))
+}
 #[verifier::external_body] pub fn child_at(c: &Children, k: usize) -> (r: Node) requires k < c.items@.len() ensures r == c.items@[k as int] { unimplemented!() }
 #[verifier::external_body] pub fn errs_append(a: &mut Vec<VErr>, b: &mut Vec<VErr>) ensures final(a)@.len() == old(a)@.len() + old(b)@.len() { unimplemented!() }
 pub open spec fn pair_of(kv: Node, p: (Value, Value)) -> bool { node_children(&kv).len() >= 2 && origin(&p.0) == node_children(&kv)[0] && origin(&p.1) == node_children(&kv)[1] }
@@ -24,7 +45,7 @@ def build(repo):
     f = src.fn(FILE, "map_initializer", "impl Parser")
     INV = ("invariant verif_k <= verif_kids.items@.len(), verif_kids.items@ == node_children(&input), "
            "forall|c: Node| has_rule(&c, \"map_kv\") ==> #[trigger] node_children(&c).len() >= 2, forall|i: int| 0 <= i < verif_kids.items@.len() ==> has_rule(#[trigger] &verif_kids.items@[i], \"map_kv\"), "
-           "errors@.len() == 0 ==> result@.len() == verif_k && forall|i: int| 0 <= i < verif_k ==> pair_of(verif_kids.items@[i], #[trigger] result@[i]), "
+           "errors@.len() == 0 ==> result@.len() == verif_k && forall|i: int| 0 <= i < verif_k ==> pair_of(verif_kids.items@[i], #[trigger] result@[i]) && pair_typed(result@[i], map_type, &input), "
            "decreases verif_kids.items@.len() - verif_k,")
     b = translate(f["body"], parser_idioms() + [
         Rule("R1", "let mut errors = vec ! [ ] ;", "let mut errors : Vec < VErr > = Vec :: new ( ) ;", why="type ascription"),
@@ -39,10 +60,10 @@ def build(repo):
         Rule("R13", "errors . append ( & mut $e ) ;", "errs_append ( & mut errors , & mut $e ) ;", why="Vec::append"),
         Rule("R13", "errors . append ( & mut $e )", "errs_append ( & mut errors , & mut $e )", why="Vec::append"),
         Rule("R6", "let maybe_class_type = { $$b } ;", "", why="class context: only feeds the type checks"),
-        Rule("R6", "let key_type = key . for_type ( $$a ) . unwrap ( ) ; if ! key_type . eq_complex ( $$b ) { errors . push ( new_err ( $$c ) ) }",
-             "if ! check_key ( & key , map_type , & input ) { errors . push ( VErr ) ; }", why="type check of the key: abstract; a mismatch is a diagnostic"),
-        Rule("R6", "let value_type = value . for_type ( $$a ) . unwrap ( ) ; if ! value_type . eq_complex ( $$b ) { errors . push ( new_err ( $$c ) ) }",
-             "if ! check_value ( & value , map_type , & input ) { errors . push ( VErr ) ; }", why="type check of the value: abstract; a mismatch is a diagnostic"),
+        Rule("R6", "$v . for_type ( & TypecheckFlags :: use_class ( maybe_class_type . as_ref ( ) ) ) . unwrap ( )", "value_type_of ( & $v , & input )", why="Value::for_type in the literal's class context: abstract (assumed not to fail on a parsed value)"),
+        Rule("R6", "$a . eq_complex ( $$b , & TypecheckFlags :: use_class ( maybe_class_type . as_ref ( ) ) , )", "eq_complex_in ( & $a , $$b , & input )", why="TypeLayout::eq_complex in the literal's class context: abstract relation, direction kept"),
+        Rule("R6", "$a . eq_complex ( $$b , & TypecheckFlags :: use_class ( maybe_class_type . as_ref ( ) ) )", "eq_complex_in ( & $a , $$b , & input )", why="TypeLayout::eq_complex in the literal's class context: abstract relation, direction kept"),
+        Rule("R3", "errors . push ( new_err ( $$c ) )", "errors . push ( VErr )", why="diagnostic text dropped"),
     ], log, "Parser::map_initializer")
     check_closed(b, "Parser::map_initializer")
     gen = header(log, f"{FILE}: Parser::map_initializer") + prelude("parser.rs") + SPEC + f"""
@@ -53,14 +74,16 @@ pub fn map_initializer(input: Node, map_type: &MapType) -> (r: Result<Vec<(Value
     ensures
         // one entry per pair of the source, in source order, key and value of THAT pair -- repeated keys included
         r is Ok ==> r->Ok_0@.len() == node_children(&input).len() && forall|i: int| 0 <= i < r->Ok_0@.len() ==> pair_of(node_children(&input)[i], #[trigger] r->Ok_0@[i]),
+        // C03: every pair kept is well typed against the map's declared key / value types
+        r is Ok ==> forall|i: int| 0 <= i < r->Ok_0@.len() ==> pair_typed(#[trigger] r->Ok_0@[i], map_type, &input),
 {{
 {render(b, 1)}
 }}
 }} // verus!
 fn main() {{}}
 """
-    return gen, [Obl("C15.map.pairs-as-written", ["C15", "C13"], fn="Parser::map_initializer", desc="map_initializer: the pair list handed to code generation is the pairs as written -- one per `key: value`, in order, none merged or dropped")], log
+    return gen, [Obl("C15.map.pairs-as-written", ["C15", "C13", "C03", "C02"], fn="Parser::map_initializer", desc="map_initializer: the pair list handed to code generation is the pairs as written -- one per `key: value`, in order, none merged or dropped; every pair kept passes the compatibility test against the declared key / value types and is not nil-able where the declared type does not admit nil")], log
 
 
-UNITS = [VUnit("c15_map_init", ["C15", "C13"], "map literal: the parser keeps the pairs as written", build)]
-UNITS[0].assumes = ["pest API and Parser::value abstract; the type checks of key and value abstract (a mismatch is a diagnostic); Value::for_type(..).unwrap() on a parsed value is assumed not to fail (not under contract)", "a failing sub-parser reports at least one error (else the pair would be dropped silently)"]
+UNITS = [VUnit("c15_map_init", ["C15", "C13", "C03", "C02"], "map literal: the parser keeps the pairs as written", build)]
+UNITS[0].assumes = ["pest API and Parser::value abstract; TypeLayout::eq_complex and is_optional abstract (eq_complex as a relation whose direction is not fixed by this contract); Value::for_type(..).unwrap() on a parsed value is assumed not to fail (not under contract)", "a failing sub-parser reports at least one error (else the pair would be dropped silently)"]
